@@ -200,6 +200,12 @@ theorem fetchRefs_envP (c : ECtx W HS) : (xs : List String) → fetchRefs c.envP
     have : fetchRef c.envP x = pure () := by unfold fetchRef; simp [ECtx.envP]
     simp [fetchRefs, this, fetchRefs_envP c xs]
 
+theorem freeHooks_envP (c : ECtx W HS) : (xs : List String) → freeHooks c.envP xs = pure ()
+  | [] => by simp [freeHooks]
+  | x :: xs => by
+    have : freeHook c.envP x = pure () := by unfold freeHook; simp [ECtx.envP]
+    simp [freeHooks, this, freeHooks_envP c xs]
+
 theorem paramHooks_envP (c : ECtx W HS) : (ps : List Param) → paramHooks c.envP ps = pure ()
   | [] => by simp [paramHooks]
   | p :: ps => by
@@ -219,8 +225,9 @@ theorem runRef_plain (c : ECtx W HS) (f : FunDef) :
   have h1 := hookMetas_envP c (some enterAnn) ["#enter"]
   have h2 := fetchRefs_envP c (sortNames (collect f).external)
   have h3 := paramHooks_envP c f.params
-  simp only [ECtx.envP] at h1 h2 h3
-  simp only [h1, h2, h3, pure_bind_M, stepM_pure, seqX_done_normal]
+  have h4 := freeHooks_envP c (sortNames (collect f).free)
+  simp only [ECtx.envP] at h1 h2 h3 h4
+  simp only [h1, h2, h3, h4, pure_bind_M, stepM_pure, seqX_done_normal]
 
 /-- a meta event with an observing handler: only the handler state changes -/
 theorem hookMeta_observer (c : ECtx W HS) (hg : HostGood c.host c.Good c.WInv) (hobs : Observer c.host) (x : String)
@@ -237,6 +244,46 @@ theorem hookMeta_observer (c : ECtx W HS) (hg : HostGood c.host c.Good c.WInv) (
       observe c hobs x .noneV _ v false (hg.notMarker v hv) sr]
     rfl
   · exact ⟨sr.hs, rfl⟩
+
+/-- a closure variable whose cell holds a value: with an observing handler only the handler state changes -/
+theorem freeHook_observer (c : ECtx W HS) (hg : HostGood c.host c.Good c.WInv) (hobs : Observer c.host) (x : String)
+    (hx : isUser x = true) (hsc : c.scR x = false) (hgl : c.host.glob x ≠ none) (sr : St W HS) :
+    ∃ hs1, freeHook c.envR x sr = (.ok (), { sr with hs := hs1 }) := by
+  obtain ⟨v, hv⟩ : ∃ v, c.host.glob x = some v := by
+    cases h : c.host.glob x with
+    | none => exact absurd h hgl
+    | some v => exact ⟨v, rfl⟩
+  have hgv : c.Good v := hg.glob x v hx hv
+  have hlook : lookup c.envR x sr = (.ok v, sr) := by
+    unfold lookup lookupV
+    simp [ECtx.envR, hsc, hv]
+  unfold freeHook
+  simp only [ECtx.envR]
+  rw [bind_def_M]
+  rw [show lookup { host := c.host, sc := c.scR, hk := some c.cfg } x sr = lookup c.envR x sr from rfl, hlook]
+  simp only
+  split
+  · refine ⟨(c.host.hnd { name := x, key := .noneV, ann := annValOpt c.envR none, value := v, ovr := false } sr.hs).2, ?_⟩
+    rw [bind_def_M]
+    rw [show interactSem { host := c.host, sc := c.scR, hk := some c.cfg } x .noneV
+        (annValOpt { host := c.host, sc := c.scR, hk := some c.cfg } none) v false sr
+        = interactSem c.envR x .noneV (annValOpt c.envR none) v false sr from rfl,
+      observe c hobs x .noneV _ v false (hg.notMarker v hgv) sr]
+    rfl
+  · exact ⟨sr.hs, rfl⟩
+
+theorem freeHooks_observer (c : ECtx W HS) (hg : HostGood c.host c.Good c.WInv) (hobs : Observer c.host) :
+    (xs : List String) → (∀ x ∈ xs, isUser x = true ∧ c.scR x = false ∧ c.host.glob x ≠ none) → ∀ sr : St W HS,
+    ∃ hs1, freeHooks c.envR xs sr = (.ok (), { sr with hs := hs1 })
+  | [], _, sr => ⟨sr.hs, rfl⟩
+  | x :: xs, h, sr => by
+    obtain ⟨hs1, h1⟩ := freeHook_observer c hg hobs x (h x (by simp)).1 (h x (by simp)).2.1 (h x (by simp)).2.2 sr
+    obtain ⟨hs2, h2⟩ := freeHooks_observer c hg hobs xs (fun y hy => h y (by simp [hy])) { sr with hs := hs1 }
+    refine ⟨hs2, ?_⟩
+    simp only [freeHooks]
+    rw [bind_def_M, h1]
+    simp only
+    rw [h2]
 
 /-- the wrapper of the activation (`#error`, `#exit`) with an observing handler changes nothing observable -/
 theorem wrapper_observer (c : ECtx W HS) (hg : HostGood c.host c.Good c.WInv) (hobs : Observer c.host)
@@ -331,6 +378,7 @@ theorem erasure (host : Host W HS) (cfg : Cfg) (f : FunDef) (fuel : Nat) (Good :
     (hg : HostGood host Good WInv) (hobs : Observer host) (pne : PneSpec host)
     (hf : coreF f = true) (hnd : noDeclB (bodyWithReturn f) = true) (st0 : St W HS)
     (hext : ∀ x ∈ (collect f).external, st0.loc x = none)
+    (hcell : ∀ x ∈ f.freevars, (collect f).assigned.contains x = false ∧ host.glob x ≠ none)
     (hpar : ∀ p ∈ f.params, st0.loc p.name ≠ none)
     (hgood : ∀ x v, st0.loc x = some v → Good v) (hinp : ∀ cmd ∈ st0.inp, GoodCmd Good cmd)
     (hcur : ∀ e ∈ st0.cur, Good e) (hw : WInv st0.w) :
@@ -340,8 +388,8 @@ theorem erasure (host : Host W HS) (cfg : Cfg) (f : FunDef) (fuel : Nat) (Good :
   let c := ectxOf host cfg f fuel Good WInv
   have hgc : HostGood c.host c.Good c.WInv := hg
   have hobc : Observer c.host := hobs
-  simp only [coreF, Bool.and_eq_true, List.all_eq_true, List.isEmpty_iff] at hf
-  obtain ⟨⟨⟨⟨⟨hbody, hau⟩, heu⟩, _⟩, hasg⟩, hparam⟩ := hf
+  simp only [coreF, Bool.and_eq_true, List.all_eq_true] at hf
+  obtain ⟨⟨⟨⟨⟨hbody, hau⟩, heu⟩, hfu⟩, hasg⟩, hparam⟩ := hf
   have hlocal : ∀ x, (collect f).assigned.contains x = true → c.local x := fun x hx =>
     ⟨scopeRef_of_assigned cfg f x hx, by simp only [c, ectxOf, scopeOf]; exact hx⟩
   have hextNA : ∀ x, x ∈ (collect f).external → (collect f).assigned.contains x = false := by
@@ -413,24 +461,47 @@ theorem erasure (host : Host W HS) (cfg : Cfg) (f : FunDef) (fuel : Nat) (Good :
       rw [hparam p hp] at this; exact absurd this (by decide)
     simp only [hne, false_and, if_false]
     exact hpar p hp
+  -- closure variables: only the handler state moves
+  have hF : ∀ x ∈ sortNames (collect f).free, isUser x = true ∧ c.scR x = false ∧ c.host.glob x ≠ none := by
+    intro x hx
+    have hxf : x ∈ f.freevars := by simpa [collect] using (mem_sortNames x _).1 hx
+    refine ⟨hfu x hxf, ?_, (hcell x hxf).2⟩
+    have hne : (collect f).external.contains x = false := by
+      cases hc : (collect f).external.contains x
+      · rfl
+      · have := List.contains_iff_mem.1 hc
+        simp only [Collected.external, List.mem_filter, Bool.and_eq_true, Bool.not_eq_true'] at this
+        have hfc : (collect f).free.contains x = true := List.contains_iff_mem.2 (by simpa [collect] using hxf)
+        rw [hfc] at this
+        exact absurd this.2.2 (by decide)
+    show scopeRef cfg f x = false
+    simp only [scopeRef, (hcell x hxf).1, hne, Bool.false_and, Bool.or_self]
+  obtain ⟨hs3, hm3⟩ := freeHooks_observer c hgc hobc (sortNames (collect f).free) hF
+    { st0 with hs := hs2, loc := locAfter c st0.loc (sortNames (collect f).external) }
+  have hrel := hrel.congrHs hs3
+  have hparR : ∀ p ∈ f.params,
+      ({ st0 with hs := hs3, loc := locAfter c st0.loc (sortNames (collect f).external) } : St W HS).loc p.name ≠ none :=
+    hparR
   obtain ⟨hp1, hp2⟩ := paramHooks_observer c hgc hobc f.params (fun p hp => hlocal p.name (hparam p hp)) _ _ hrel hparR
   -- the core of the activation
   have hcore : EXp c
       (seqX (stepM (do hookMetas c.envR (some enterAnn) ["#enter"]
                        fetchRefs c.envR (sortNames (collect f).external)
+                       freeHooks c.envR (sortNames (collect f).free)
                        paramHooks c.envR f.params) fun _ => done .normal)
         (execB c.envR c.fuel (bodyWithReturn f)))
       (execB c.envP c.fuel (bodyWithReturn f)) st0 st0 := by
     have hb := eraseB c hgc hobc (bodyWithReturn f) hbody hnd (fun x hx => hlocal x (hasg x hx))
     have hpro : ((hookMetas c.envR (some enterAnn) ["#enter"] >>= fun _ =>
-          fetchRefs c.envR (sortNames (collect f).external) >>= fun _ => paramHooks c.envR f.params) : M W HS Unit) st0
+          fetchRefs c.envR (sortNames (collect f).external) >>= fun _ =>
+          freeHooks c.envR (sortNames (collect f).free) >>= fun _ => paramHooks c.envR f.params) : M W HS Unit) st0
         = paramHooks c.envR f.params
-            { st0 with hs := hs2, loc := locAfter c st0.loc (sortNames (collect f).external) } := by
-      simp only [hookMetas, bind_def_M, hm1, pure_def_M, hm2]
+            { st0 with hs := hs3, loc := locAfter c st0.loc (sortNames (collect f).external) } := by
+      simp only [hookMetas, bind_def_M, hm1, pure_def_M, hm2, hm3]
     unfold EXp seqX stepM
     rw [hpro]
     rcases hph : paramHooks c.envR f.params
-      { st0 with hs := hs2, loc := locAfter c st0.loc (sortNames (collect f).external) } with ⟨r, sr3⟩
+      { st0 with hs := hs3, loc := locAfter c st0.loc (sortNames (collect f).external) } with ⟨r, sr3⟩
     rw [hph] at hp1 hp2
     simp only at hp1 hp2
     subst hp1
